@@ -164,6 +164,7 @@ type sgw struct {
 	names   map[string]uint16
 	silent  bool
 	first   *snLink
+	regSeq  uint16
 }
 
 func (s *Sim) newSGW(pl *SGWPlan) *sgw {
@@ -185,9 +186,31 @@ func (g *sgw) send(l *snLink, pk refsn.Pkt, why string) {
 	if g.isSilent() {
 		return
 	}
+	if pk.Type == refsn.REGISTER && pk.Raw == nil {
+		// stay consistent with ids handed out later for the same name (SUBACK/REGACK)
+		if _, ok := g.names[pk.TopicName]; !ok {
+			g.names[pk.TopicName] = pk.TopicID
+		}
+	}
 	b := pk.Encode()
 	g.s.W.Log("sgw:"+l.name+">", "tx", b, why+" "+pk.String(), int64(pk.Type))
 	l.g2c(b)
+}
+
+// sendOp sends a scripted packet. A PUBLISH with a topic name (symbolic) is resolved to the id this
+// gateway has for the name, registering it with the client first when the name is new.
+func (g *sgw) sendOp(l *snLink, pk refsn.Pkt) {
+	if pk.Type == refsn.PUBLISH && pk.TopicName != "" && pk.TIT == refsn.TITNormal && pk.Raw == nil {
+		name := pk.TopicName
+		id, known := g.names[name]
+		if !known {
+			id = g.tid(name)
+			g.regSeq++
+			g.send(l, refsn.Pkt{Type: refsn.REGISTER, TopicID: id, MsgID: 0x4000 + g.regSeq, TopicName: name}, "op-register")
+		}
+		pk.TopicID, pk.TopicName = id, ""
+	}
+	g.send(l, pk, "op")
 }
 
 func (g *sgw) tid(name string) uint16 {
